@@ -588,9 +588,11 @@ func (propC05) Execute(pp any, x *X) *Violation {
 				return ""
 			})
 		}
-		if e1 != nil || viol != nil {
+		if viol != nil {
 			return
 		}
+		// a caller may go on to canvas reconstruction after a reported frame-decoding
+		// error: NextFrame must then fail cleanly (ErrNilImage), never panic
 		var dec *animation.AnimDecoder
 		measure("NewAnimDecoder", func() string {
 			d, err := animation.NewAnimDecoder(anim)
